@@ -17,13 +17,15 @@ MODNAME = "verif_ctxfam"
 def build_family(bases):
     """Real key objects for [b, f]; bases and their aliases live in one generated module."""
     src = ["import typing", "from typing import NewType, Final, ClassVar, ForwardRef, TypeAliasType"]
+    # the second base is a class nested in another class: it is named by the dotted path "Outer2.B2"
+    path = {b: (f"Outer{b[1:]}.{b}" if b == "B2" else b) for b in bases}
     for b in bases:
         n = b[1:]
         src += [
-            f"class {b}: pass",
-            f"NT{n} = NewType('NT{n}', {b})",
-            f"A{n} = TypeAliasType('A{n}', {b})",
-            f"SA{n} = TypeAliasType('SA{n}', '{b}')",
+            f"class Outer{n}:\n    class {b}: pass" if path[b] != b else f"class {b}: pass",
+            f"NT{n} = NewType('NT{n}', {path[b]})",
+            f"A{n} = TypeAliasType('A{n}', {path[b]})",
+            f"SA{n} = TypeAliasType('SA{n}', '{path[b]}')",
         ]
     mod = types.ModuleType(MODNAME)
     sys.modules[MODNAME] = mod
@@ -31,14 +33,14 @@ def build_family(bases):
     fam = {}
     for b in bases:
         n = b[1:]
-        cls = getattr(mod, b)
+        cls = eval(path[b], mod.__dict__)
         fam[(b, "self")] = cls
         fam[(b, "newtype")] = getattr(mod, f"NT{n}")
         fam[(b, "alias")] = getattr(mod, f"A{n}")
         fam[(b, "salias")] = getattr(mod, f"SA{n}")
         fam[(b, "final")] = typing.Final[cls]
         fam[(b, "classvar")] = typing.ClassVar[cls]
-        fam[(b, "fref")] = typing.ForwardRef(b, module=MODNAME)
+        fam[(b, "fref")] = typing.ForwardRef(path[b], module=MODNAME)
         fam[(b, "nref")] = typing.ForwardRef(f"NT{n}", module=MODNAME)
         fam[(b, "aref")] = typing.ForwardRef(f"A{n}", module=MODNAME)
         fam[(b, "sref")] = typing.ForwardRef(f"SA{n}", module=MODNAME)
